@@ -134,7 +134,7 @@ func (rc *runCtx) nativeReplay(g *group, pkgName string, h HSpec, params map[str
 func (rc *runCtx) nativeReplayKeep(g *group, pkgName string, h HSpec, params map[string]int, m []gossa.NondetVal, to time.Duration, v gossa.Violation) (string, string) {
 	doc := rc.mkDoc(g, pkgName, h, params, m, to)
 	doc.Kind, doc.Label, doc.Stack = v.Kind, v.Label, v.Stack
-	dir := filepath.Join(verifDir, "evidence", "replays")
+	dir := filepath.Join(evidenceDir(), "replays")
 	os.MkdirAll(dir, 0o755)
 	n := atomic.AddInt64(&replayCtr, 1)
 	p := filepath.Join(dir, fmt.Sprintf("%s-%s-%d.json", rc.prop.ID, h.Func, n))
